@@ -248,6 +248,26 @@ def head_repoint(ctx, rr):
 
     def by_attr(a):
         return [c for c in calls if isinstance(c.func, ast.Attribute) and c.func.attr == a]
+    # the existing list is always looked at: whether the page already has links in this direction decides, alone, whether the new
+    # stubs are chained to an old head (a caller's belief that the page is new is stale after a yield)
+    from .table_rules import tables as _tables
+    body_ = u.node.body
+    fl_ = [k_ for k_, s_ in enumerate(body_) if isinstance(s_, ast.For)]
+    if fl_:
+        rows_ = _tables(ctx, u, stmts=body_[:fl_[0]], iters=1, keep=lambda n_, c_: n_ in ('has_links', 'links', 'node', 'has_outlinks', 'has_inlinks', 'outlinks', 'inlinks'))
+        badh = []
+        for r_ in rows_:
+            hl = [v for k, v in r_.val.items() if '.has_links(' in k or '.has_outlinks(' in k or '.has_inlinks(' in k]
+            loaded = [e for e in r_.calls('node') if any(a.replace(' ', '').startswith('block=') for a in e.args)]
+            if not hl:
+                badh.append((r_, 'the batch is recorded without looking whether the page already has links in this direction'))
+            elif hl[-1] and not loaded:
+                badh.append((r_, 'the page has links in this direction but the old head is not loaded: the new stubs start a fresh list and the old one is orphaned'))
+            elif not hl[-1] and loaded:
+                badh.append((r_, 'an old head is loaded although the page has no links in this direction (block 0 is the header)'))
+        rr.ob(ctx.where(u), 'add_links chains to the old head iff the page has links in this direction (%d rows)' % len(rows_), ok=not badh)
+        for r_, msg in badh[:2]:
+            rr.fail(ctx.finding('R-HEAD-REPOINT', u, u.node, 'LinkStore.add_links: ' + msg, detail={'row': r_.show()[:300]}, stmt='add_links old head'))
     loops = list(P.own(u, ast.For))
     if len(loops) != 1 or u.call_params[:2] != ['source_node', 'target_blocks'] and len(u.call_params) < 2:
         raise AnalysisError('R-HEAD-REPOINT: LinkStore.add_links no longer has one loop over the batch')
@@ -370,6 +390,16 @@ def pointee_first(ctx, rr):
                                 if not ok:
                                     rr.fail(ctx.finding('R-POINTEE-FIRST', u, c, 'pointer to `%s` is stored before that block has been written: a crash '
                                                         'between the two writes leaves a pointer to a block that is not in the file' % arg.value.id))
+                        else:
+                            # a pointer whose value is predicted from the size of the store instead of being read off a written node
+                            from ..dataflow import rtext as _rt4
+                            txt_ = _rt4(P, u, arg)
+                            if report and ('len(self.storage' in txt_ or 'count_blocks' in txt_ or '__len__' in txt_ or 'block_size*' in txt_ or '*self.storage.block_size' in txt_):
+                                n[0] += 1
+                                rr.ob(ctx.where(u, c), 'pointer `%s` is taken from a written node' % ast.unparse(c)[:50], ok=False)
+                                rr.fail(ctx.finding('R-POINTEE-FIRST', u, c, 'pointer `%s` is predicted from the size of the store (`%s`) and stored before the pointee exists: a crash '
+                                                    'between the two writes leaves a pointer to a block that is not in the file (or into the middle of a multi-block stem)'
+                                                    % (ast.unparse(c)[:50], txt_[:50])))
                     if c.func.attr == 'write' and any(t.cls in NODEC for t in P.targets(c)):
                         st[r] = DISK
                     elif c.func.attr in RELOADS and any(t.cls in NODEC for t in P.targets(c)):
